@@ -173,6 +173,12 @@ def explore(mod, tier, seed, jobs):
     global _MOD
     _MOD = mod
     cases = list(mod.gen_cases(tier))
+    focus = os.environ.get('VERIF_FOCUS')
+    if focus:
+        # audit mode (tools/table_audit.py): only the cases that name the focused version; coverage obligations do not apply
+        def names(c):
+            return any(str(x) == focus for x in c) if isinstance(c, (list, tuple)) else False
+        cases = [c for c in cases if names(c)] or cases
     if not cases:
         raise CheckerError('no cases generated')
     csize = getattr(mod, 'CHUNK', None) or max(1, min(64, len(cases) // (jobs * 8) or 1))
@@ -215,7 +221,7 @@ def load_known(prop):
 
 
 def write_replay(prop, v):
-    d = os.path.join(VERIF, 'replays')
+    d = os.environ.get('VERIF_REPLAY_DIR') or os.path.join(VERIF, 'replays')
     os.makedirs(d, exist_ok=True)
     body = json.dumps({'property': prop, **v}, indent=1, sort_keys=True, default=jdefault)
     name = '%s-%s.json' % (prop, hashlib.blake2b(body.encode(), digest_size=6).hexdigest())
@@ -267,7 +273,7 @@ def finish(mod, tier, seed, agg, t0, extra_cov=None, assumptions=None):
         print(ln)
     failed = []
     try:
-        failed = list(mod.obligations(agg, tier)) if hasattr(mod, 'obligations') else []
+        failed = list(mod.obligations(agg, tier)) if hasattr(mod, 'obligations') and not os.environ.get('VERIF_FOCUS') else []
     except Exception:
         failed = ['obligations() crashed: ' + traceback.format_exc()]
     cov = {
